@@ -40,6 +40,55 @@ CLAIMS['C16'] = ('proof',
     "raised inside the standard library (bad_alloc), non-regular files where ftell fails.",
     'DESIGN.md section 5, C16')
 
+# properties whose level text is the EXPLANATION string of their rule module: id -> (technique, level note)
+TECH = {
+    'C02': ('CFG path / ordering / ownership analysis over the 4 tasking backend configurations; member-order rule; who-may-delete over ITaskSet overrides',
+            'Trusted: backend contracts (tbb::task_arena::enqueue, task_group::run, std::thread, the enkiTS pipe invoke a submitted callable exactly once); '
+            'no exception edges. Not decided: that an enqueued task eventually runs (liveness); std::packaged_task/std::future internals.'),
+    'C03': ('ordering automata over clang CFGs (store-own-flag-then-load-the-other handshake), lock-scope and condition-variable discipline',
+            'Trusted: C++11 seq_cst total order; one controlling thread at a time; one AsyncLoopData per object. Not decided: wake-up latency '
+            'beyond the absence of a lost wake-up; a body that never returns; that tasking::schedule runs the closure (C02).'),
+    'C07': ('LLVM-IR value-graph normal form of identity drivers + interval bound of the Newton-Raphson error polynomial; AST purity rule',
+            'Real-number reading of float operations with relative rounding <= 2^-24 per operation (no under/overflow); rcpss/rsqrtss estimate error '
+            '<= 1.5*2^-12 (Intel SDM); no NaN/-0. Not decided: denormal, -0, NaN and huge inputs incl. rcp_safe on them; monotonicity/accuracy of pow; '
+            'last rounding step of the distributions.'),
+    'C08': ('abstract reference accounting over CFGs of every IntrusivePtr member (all null/aliasing scenarios); atomic-RMW normal form; compile witnesses',
+            'Assumes handles are not mutated concurrently with their own use and callers own the counts they release. Not decided: writes to the public '
+            'ptr from outside rkcommon; a pointee destructor that re-enters the handle being assigned.'),
+    'C10': ('CFG path summaries against per-operation specifications, sibling (const/non-const) agreement, mutator vocabulary',
+            'The rules are the invariants a conformance proof needs (necessary conditions); step-by-step agreement with a reference map on arbitrary '
+            'histories is not claimed. KEY::operator== and Any (C09) are trusted. FlatMap::operator[] const cannot be instantiated (observation).'),
+    'C11': ('CFG path summaries with expression normal forms, ownership provenance of the view pointer, special-member facts from clang',
+            'Trusted: std::vector / shared_ptr contracts. Not decided: contents after a history (only extents, lifetimes and aliasing); validity of '
+            'caller-supplied (pointer,size) pairs; allocation failure.'),
+    'C12': ('guarded-by lock-scope analysis with a frozen field->mutex table; path automata for append / move-out / update',
+            'Constructors/destructors are exempt (no concurrent access yet); a moved-from vector is empty. Not decided: cross-thread value order beyond '
+            'what mutual exclusion implies; payload / std::vector / std::mutex behaviour.'),
+    'C13': ('inlining value-flow / interval path-splitting over clang CFGs under all 4 backend configurations',
+            'NDEBUG build; TBB/OpenMP honour the limit they are given. Not decided (runtime quantity, not statically reachable): that no more than n threads '
+            'are ever simultaneously inside parallel_for bodies.'),
+    'C14': ('per-configuration value-flow, interval overflow analysis of the size product, static_assert witnesses',
+            'LP64; backend allocators (scalable_aligned_malloc, _mm_malloc, posix_memalign) honour their contracts; the _WIN32 branch is not parsed. '
+            'Not decided: what the allocators return; std::vector\'s use of the allocator (element survival across reallocation).'),
+    'C15': ('path-sensitive integer normal-form propagation (exact bounds guards) + wire-signature pairing of writer/reader operators chosen by overload resolution',
+            'Assumes cursor+size does not wrap and public members are not modified by user code. Not decided: value equality after a round trip.'),
+    'C17': ('LLVM-IR polynomial identities with Div/Mod atoms + typed-AST width lint + AST normal forms of loops and adaptors',
+            'Arithmetic mod 2^N with nsw/nuw taken at their word; extents and indices non-negative; the int narrowing inside coordsOf is accepted for an '
+            'index inside the extent. Not decided: right inverse reshape(flatten(c)) = c (needs range facts); tightness of getValueRange.'),
+    'C18': ('CFG typestate (extension-dot guard), relational normal forms (token filters), table agreement (SI ladder), loop-shape rules',
+            'Integer arithmetic read without wrap-around (except npos+1); std library contracts trusted. Not decided: split/re-join and URL round-trip '
+            'laws as statements over all strings; split(keepDelim); FileName normalisation; printed precision.'),
+    'C19': ('registration-invariant interpretation of Observer/Observable members, normal forms, who-may-write over all library sources, special-member facts',
+            'Observer histories are treated as sequential. Not decided: cross-thread ordering between notifyObservers and wasNotified; wrap-around of the '
+            '64-bit stamp counter.'),
+    'C20': ('interval evaluation of index polynomials over template arguments + JSON skeleton automaton run to a fixpoint over the CFG of saveLog',
+            'User strings need no JSON escaping; numbers print as finite; histories have matched begin/end. Not decided: decoded pixel equality; JSON '
+            'escaping of names; nesting of the recorded history.'),
+}
+
+# built but not yet clean on /repo (fix pending): not claimed until then
+HOLD = {'C02'}
+
 NOT_CLAIMED = {}
 
 PENDING = ("check not built yet in this revision of /verif (planned static rules are described in DESIGN.md section 5); "
@@ -52,8 +101,16 @@ def main():
     na = []
     for p in props:
         pid = p['id']
-        if pid in CLAIMS and os.path.exists(os.path.join(HERE, 'rules', pid + '.py')):
-            cat, tech, text, note, ref = CLAIMS[pid]
+        if pid not in HOLD and (pid in CLAIMS or (pid in TECH and os.path.exists(os.path.join(HERE, 'rules', pid + '.py')))):
+            if pid in CLAIMS:
+                cat, tech, text, note, ref = CLAIMS[pid]
+            else:
+                sys.path.insert(0, HERE)
+                import importlib
+                mod = importlib.import_module('rules.' + pid)
+                cat, text = mod.LEVEL, ' '.join(mod.EXPLANATION.split())
+                tech, note = TECH[pid]
+                ref = 'DESIGN.md section 5, %s; section 9 (implementation status)' % pid
             checks.append({
                 'property_id': pid,
                 'quick_cmd': './check %s --tier quick' % pid,
